@@ -13,6 +13,9 @@
 (*              Resampler.run with resample='syst'): nw = number of        *)
 (*              weights, zero = set of zero-weight indices, rows = for     *)
 (*              every resampled field the row ids it carries               *)
+(*  CellCases   <<[n, a, Q, ks, outs]>>  for one (n, w): the offsets ks of a *)
+(*              finite cover of [0,1) and the index vector the real        *)
+(*              routine returned at each of them (counting identity)       *)
 (*  MultCases   <<[n, nw, zero, r, cdf, lookup, out, err, rows]>>          *)
 (*              Resampler.run(resample='mult'): r / cdf are the order      *)
 (*              ranks of the regenerated uniforms and of the cumulative    *)
@@ -24,6 +27,9 @@ SysCases == <<
 >>
 StructCases == <<
   [n |-> 2, nw |-> 3, zero |-> {1}, out |-> <<2, 3>>, err |-> FALSE, rows |-> << <<2, 3>> >>]
+>>
+CellCases == <<
+  [n |-> 1, a |-> <<1, 1>>, Q |-> 2, ks |-> <<0, 1, 2, 3>>, outs |-> << <<1>>, <<1>>, <<2>>, <<2>> >>]
 >>
 MultCases == <<
   [n |-> 2, nw |-> 3, zero |-> {2}, r |-> <<1, 4>>, cdf |-> <<2, 2, 5>>, lookup |-> TRUE,
